@@ -2337,7 +2337,11 @@ class ModuleCtx:
             em.hints = hints or {}
             em.run()
             want = em.norm_ty(ret)
-            if em.result.agg or em.result.ty != want:
+            if em.result.agg:
+                got = ('agg', [x.ty for x in em.result.items])
+                if any(x.agg for x in em.result.items) or got != want:
+                    raise TranslateError('fragment has type %r, expected %s' % (got, want))
+            elif em.result.ty != want:
                 raise TranslateError('fragment has type %r, expected %s' % (em.result.ty, want))
             self.out.append(em.render())
         except TranslateError as ex:
